@@ -634,5 +634,12 @@ def r11(F, R):
     c20.deregistration(F, R)
 
 
-RULES = [("R1", r1, None), ("R2", lambda F, R: r2(F, R) and None, None), ("R3", r3, None), ("R4", r4, None), ("R5", r5, None), ("R6", r6, None),
+def r12(F, R):
+    """"a panicking one (or one whose World cannot be created) is Failed with the payload": the caught payload reaches the failure
+    event converted, never re-wrapped as an opaque value, at every site of the attempt routine (= C10.R2)."""
+    from . import c10
+    c10.r2(F, R)
+
+
+RULES = [("R12", r12, None), ("R1", r1, None), ("R2", lambda F, R: r2(F, R) and None, None), ("R3", r3, None), ("R4", r4, None), ("R5", r5, None), ("R6", r6, None),
          ("R7", r7, None), ("R8", r8, None), ("R9", r9, None), ("R10", r10, None), ("R11", r11, None)]
